@@ -296,6 +296,12 @@ impl StateRestorer {
                 } => {
                     log::debug!("Replaying: TaskStarted {task_id} {instance_id} {worker_ids:?}");
                     if let Some(job) = self.jobs.get_mut(&task_id.job_id()) {
+                        // The task may have been started before (and crashed)
+                        let crash_counter = job
+                            .tasks
+                            .get(&task_id.job_task_id())
+                            .map(|t| t.crash_counter)
+                            .unwrap_or(0);
                         job.tasks.insert(
                             task_id.job_task_id(),
                             RestorerTaskInfo {
@@ -308,7 +314,7 @@ impl StateRestorer {
                                     },
                                 },
                                 instance_id: Some(instance_id),
-                                crash_counter: 0,
+                                crash_counter,
                             },
                         );
                     }
